@@ -148,6 +148,21 @@ fn explore(ctx: &mut Ctx) {
         }
     }
     ctx.exhaustive_part("all strings of 0..=3 chars over 9 boundary scalars x all histories");
+    // long strings: 33 and 64 chars, histories = all-front, all-back, alternating, 2:1, and 200 seeded ones (first 32 steps)
+    let pool = ['a', 'é', '漢', '😀', '\u{7ff}', '\u{800}', '\u{fff}', '\u{ffff}', '\u{10000}', 'z'];
+    let mut rng = kvh::Rng::new(ctx.args.seed, "c07-long");
+    for n in [33usize, 64] {
+        for k in [1usize, 3, 7] {
+            let s: String = (0..n).map(|i| pool[(i * k + i / 5) % pool.len()]).collect();
+            for hist in [0u32, u32::MAX, 0xAAAA_AAAA, 0x5555_5555, 0x2492_4924, 0xFFFF_0000, 0x0000_FFFF] {
+                eval(ctx, Case::Iter { s: s.clone(), hist, steps: 32 });
+            }
+            for _ in 0..200 {
+                eval(ctx, Case::Iter { s: s.clone(), hist: rng.next() as u32, steps: 32 });
+            }
+        }
+    }
+    ctx.exhaustive_part("6 long strings (33 / 64 chars, all UTF-8 widths) x 7 structured + 200 seeded histories of 32 steps");
     // random longer strings with arbitrary chars
     let n = ctx.by_tier(30_000, 1_000_000);
     let strat = (proptest::collection::vec(any::<char>(), 0..20), any::<u32>());
